@@ -209,6 +209,18 @@ def run(F, rep):
     if not badl:
         rep.ok('C06.L1', 'scan', None, 'no index loop moves children out of its own collection in %d functions (fixture: 1 of 2 flagged, as expected)' % len(reach))
 
+    rep.rule('C06.B1', 'every function in the reach of flattenModel that keeps its current recursion path in a container parameter pops what it pushed on every path that does not report failure '
+                       '(units or components reached twice along different branches - diamonds - are otherwise mistaken for cycles: isDefined() refuses valid models, required units are left out)')
+    import recursion as _rec
+    n_b = 0
+    for k in reach:
+        g = F.funcs[k]
+        for c, name, ok, detail in _rec.path_guard_balance(F, g):
+            n_b += 1
+            rep.check(ok, 'C06.B1', '%s|%s' % (g.short.split('::')[-1], name), g.where(c), '%s: after `%s` some path reaches the exit without pop_back (%s)' % (g.short, render(c)[:40], detail), 'balanced (%s)' % detail)
+    if n_b < 2:
+        raise AnalysisBroken('C06.B1: path guards vanished from the reach of flattenModel (%d found, 3 confirmed)' % n_b)
+
     # ------------------------------------------------------------------ A
     rep.rule('C06.A1', 'a bool local that is initialised before a loop, assigned inside it and read after it accumulates over the iterations: inside the loop it is only assigned the constant that differs from its initial value, '
                        'or a value that depends on itself (so an earlier iteration is never overwritten by a later one)')
